@@ -291,9 +291,22 @@ fn epilogue(sc: &MScenario, sim: &mut Sim, h: &mut MHandle) -> Option<Violation>
             w.all_handles_dropped = true;
             w.pool.take()
         });
+        let calls0 = with_w(|w| w.calls.len());
         let r = std::panic::catch_unwind(std::panic::AssertUnwindSafe(move || drop(pool)));
         if r.is_err() {
             return Some(engine::violation("C06", "object_outlives_pool", "dropping the last pool handle panicked".into()));
+        }
+        if sc.profile == "C08" {
+            // dropping a handle is none of the calls from which the pool may invoke the manager
+            let n = with_w(|w| w.calls.len() - calls0);
+            if n > 0 {
+                let what = with_w(|w| w.calls[calls0].kind.name().to_string());
+                return Some(engine::violation(
+                    "C08",
+                    "call_outside_operation",
+                    format!("{n} manager call(s) (first: {what}) were made from inside drop(pool) when the last handle went away"),
+                ));
+            }
         }
         let held: Vec<SObject> = with_w(|w| {
             let mut v = Vec::new();
